@@ -91,6 +91,9 @@ pub fn run(seed: u64, ntraces: usize) {
         // a credit of 7 EGLD, then a successful dispatch pays 5 of the contract's 7 away: the withdrawal of the credit cannot be honoured in full and must fail, keeping the credit
         if t % 8 == 4 { queue = vec![("cmd", 0, 0, 0), ("jump", 0, 0, 0), ("exec", 0, 0, 1), ("deliver_fail", 0, 0, 0), ("callback", 0, 0, 0),
                                      ("cmd", 6, 0, 0), ("jump", 6, 0, 0), ("exec", 6, 0, 5), ("deliver_ok", 0, 0, 0), ("callback", 0, 0, 0), ("refund", 0, 0, 0), ("refund", 0, 0, 0)]; }
+        // the SAME dispatcher fails twice with EGLD attached before withdrawing: the credits add up (7 + 7), then one withdrawal takes all
+        if t % 8 == 6 { queue = vec![("cmd", 0, 0, 0), ("jump", 0, 0, 0), ("exec", 0, 2, 1), ("deliver_fail", 0, 0, 0), ("callback", 0, 0, 0),
+                                     ("exec", 0, 2, 1), ("deliver_fail", 0, 0, 0), ("callback", 0, 0, 0), ("exec", 0, 2, 5), ("deliver_fail", 0, 0, 0), ("callback", 0, 0, 0), ("refund", 0, 0, 0), ("refund", 0, 0, 0)]; }
         if t % 8 == 3 { queue = vec![("cmd", 0, 0, 0), ("jump", 0, 0, 0), ("exec", 0, 0, 7), ("xfer_op", 0, 0, 0), ("deliver_fail", 0, 0, 0), ("callback", 0, 0, 0), ("refund", 0, 0, 0)]; }
         for _ in 0..nops {
             // time: sometimes jump to (just before / exactly) a scheduled eta
@@ -102,7 +105,7 @@ pub fn run(seed: u64, ntraces: usize) {
             if let Some(("jump", pi, _, _)) = forced { if let Some(e) = etas[pi] { if e < (1u64 << 40) { now = now.max(e); w.set_time(now); } } }
             let has_undelivered = pending.iter().any(|p| p.result.is_none());
             let has_delivered = pending.iter().any(|p| p.result.is_some());
-            let k = match forced { Some(("cmd", _, _, _)) => 100, Some(("exec", _, 0, _)) => 6, Some(("exec", _, _, _)) => 9,
+            let k = match forced { Some(("cmd", _, _, _)) => 100, Some(("exec", _, 0, _)) => 6, Some(("exec", _, 2, _)) => 6, Some(("exec", _, _, _)) => 9,
                         Some(("deliver_fail", _, _, _)) => 12, Some(("deliver_ok", _, _, _)) => 12, Some(("callback", _, _, _)) => 15, Some(("jump", _, _, _)) => 19, Some(("refund", _, _, _)) => 17, Some(("xfer_op", _, _, _)) => 18, _ => 0 };
             let k = if forced.is_some() { k }
                     else if has_delivered && r.chance(1, 3) { 15 }
@@ -163,6 +166,7 @@ pub fn run(seed: u64, ntraces: usize) {
                 let pi = if let Some(("exec", fpi, _, _)) = forced { fpi } else if !ready.is_empty() && r.chance(3, 4) { *r.pick(&ready) } else if !waiting.is_empty() && r.chance(1, 2) { *r.pick(&waiting) } else { r.below(props.len() as u64) as usize };
                 let p = props[pi].clone();
                 let caller = if operator_path { if forced.is_some() || r.chance(4, 5) { cur_op.clone() } else { anyone.clone() } } else { anyone.clone() };
+                let caller = if let Some(("exec", _, 2, _)) = forced { users[0].clone() } else { caller };      // path flag 2: time-lock path, always the same dispatcher
                 let (egld, esdt): (u64, Vec<(Vec<u8>, u64, BigUint)>) = match if let Some(("exec", _, _, sh)) = forced { if sh > 0 { sh - 1 } else { r.below(9) } } else { r.below(9) } {
                     8 => (0, (0..12).map(|i| (if i % 2 == 0 { tok.clone() } else { tok2.clone() }, 0u64, bn(1 + i as u64))).collect()),      // twelve transfers: every one is credited on failure
                     6 => (0, vec![(sft.clone(), 5, bn(7))]), 7 => (0, vec![(sft.clone(), 5, bn(2)), (sft.clone(), 6, bn(3)), (tok.clone(), 0, bn(1))]),
